@@ -52,7 +52,7 @@ def run(tier, seed):
     plan = [("tut13x3", None, 40), ("tut13x3", {"test_timeout": 1}, 40), ("guix2", None, 20)] if quick else \
            [("tut13x3", None, 300), ("tut13x3", {"test_timeout": 1}, 300), ("tut13x4", None, 200), ("tut13x4", {"test_timeout": 1}, 200),
             ("guix2", None, 200), ("guix3e", {"test_timeout": 1}, 200), ("tut13c", None, 200), ("tut1c", {"test_timeout": 1}, 200)]
-    return D.generic_run(PID, tier, seed, plan, make_jobs, signature, describe,
+    return D.generic_run(PID, tier, seed, plan, make_jobs, signature, describe, explore_plan=D.explore_plan(tier, ['NoC04'], retries=True),
                          rule="randomized durations within the timeout, wake-up orders induced by them, max_tries/max_concurrent_tries variants, "
                               "timeouts 100 s and 1 s (bounce 0.1 s); TLC validates the concurrency bound at every start/prestart",
                          assumptions=["no execution overruns its timeout and no result is lost (the property's own premise)"])
